@@ -388,3 +388,57 @@ Definition run_via_phys (g h : geom) (round check : bool) (pts : list vec3) : va
   VL [vres (fun l => VL (map vvec l)) (v2v (geom_aff g) (geom_aff h) (g_shape h) round check pts);
       vres (fun l => VL (map vvec l))
            (ref2idx (geom_aff h) (g_shape h) round check (idx2ref (geom_aff g) pts))].
+
+(* ---- the dtype of the index array handed to VolumeToVolumeTransformer.__call__ ------------------------- *)
+(* numpy dtypes of the caller's index array: signed / unsigned integers and floats of 8..64 bits.
+     input_is_int = indices.dtype.kind == 'i'          (SIGNED integers only)
+     round_output:  np.around(out).astype(indices.dtype if input_is_int else np.int64)
+     otherwise:     out                                  if input_is_int
+                    out.astype(indices.dtype)            if not  (floats: rounding to the float type is an oracle
+                                                         premise; UNSIGNED integers: truncation toward zero and
+                                                         reduction mod 2^bits - reported defect, see
+                                                         v2v_dt_unsigned_unrounded_refuted)
+   the bounds check looks at the values AFTER the cast.  astype to a signed integer type of `bits` bits is two's
+   complement wrap-around (numpy: C cast; exact for every value that fits) *)
+Inductive width : Type := W8 | W16 | W32 | W64.
+Definition wbits (w : width) : Z := match w with W8 => 8 | W16 => 16 | W32 => 32 | W64 => 64 end.
+Inductive idtype : Type := DInt (w : width) | DUInt (w : width) | DFloat (w : width).
+Definition input_is_int (dt : idtype) : bool := match dt with DInt _ => true | _ => false end.
+Definition smin (w : width) : Z := - 2 ^ (wbits w - 1).
+Definition smax (w : width) : Z := 2 ^ (wbits w - 1) - 1.
+Definition wrap_s (w : width) (z : Z) : Z := (z + 2 ^ (wbits w - 1)) mod 2 ^ (wbits w) - 2 ^ (wbits w - 1).
+Definition wrap_u (w : width) (z : Z) : Z := z mod 2 ^ (wbits w).
+Definition qtrunc (q : Q) : Z := if Qle_bool 0 q then Qfloor q else Qceiling q.
+Definition round_width (dt : idtype) : width := match dt with DInt w => w | _ => W64 end.
+Definition vmapz (f : Q -> Z) (v : vec3) : vec3 := V3 (inject_Z (f (vx v))) (inject_Z (f (vy v))) (inject_Z (f (vz v))).
+Definition cast_out (dt : idtype) (round : bool) (v : vec3) : vec3 :=
+  if round then vmapz (fun q => wrap_s (round_width dt) (rne q)) v
+  else match dt with
+       | DUInt w => vmapz (fun q => wrap_u w (qtrunc q)) v
+       | _ => v
+       end.
+Definition v2v_dt (dt : idtype) (A B : aff) (shapeB : t3 Z) (round check : bool) (pts : list vec3)
+  : res (list vec3) :=
+  if Qeq_bool (det B) 0 then Err VE else
+  let T := v2v_aff A B in
+  let out := map (cast_out dt round) (map (phys T) pts) in
+  if check then
+    match bounds_fail shapeB out with
+    | None => Err VE
+    | Some true => Err VE
+    | Some false => Ok out
+    end
+  else Ok out.
+(* dtype of the returned array as kind * 100 + bits (kind: 1 = signed, 2 = unsigned, 3 = float) *)
+Definition dt_code (dt : idtype) : Z :=
+  match dt with DInt w => 100 + wbits w | DUInt w => 200 + wbits w | DFloat w => 300 + wbits w end.
+Definition out_dtype (dt : idtype) (round : bool) : idtype :=
+  if round then DInt (round_width dt)
+  else match dt with DInt _ => DFloat W64 | _ => dt end.
+(* [ Ok [indices; dtype code of the returned array] | Err ;
+     h.map_reference_to_indices(g.map_indices_to_reference(pts), round, check) ] *)
+Definition run_v2v_dt (dt : idtype) (g h : geom) (round check : bool) (pts : list vec3) : val :=
+  VL [vres (fun l => VL [VL (map vvec l); VZ (dt_code (out_dtype dt round))])
+           (v2v_dt dt (geom_aff g) (geom_aff h) (g_shape h) round check pts);
+      vres (fun l => VL (map vvec l))
+           (ref2idx (geom_aff h) (g_shape h) round check (idx2ref (geom_aff g) pts))].
